@@ -129,6 +129,13 @@ pub struct World {
     pub parks: Vec<(usize, usize)>,
     /// index of the task poll (set by the executor loop) in which each park happened
     pub park_polls: Vec<usize>,
+    /// read position of the latest reader park in the task poll now running, if the task has not
+    /// been told to wait for the *writer* since
+    pub poll_park: Option<usize>,
+    /// suspension points: (bytes on the log, client bytes handed out) at the end of every task
+    /// poll that returned Pending after its last transport operation had been a read that found
+    /// nothing - the task is then waiting for input
+    pub suspensions: Vec<(usize, usize)>,
     /// readiness of the transport's `poll_flush`, cyclic: true = not ready once (with a wake-up);
     /// empty = always ready
     pub flush_script: Vec<bool>,
@@ -149,6 +156,8 @@ impl World {
             transport_events: 0, saw_read_pending: false, saw_write_pending: false, short_reads: 0, short_writes: 0,
             parks: Vec::new(),
             park_polls: Vec::new(),
+            poll_park: None,
+            suspensions: Vec::new(),
             flush_script: Vec::new(),
             flush_pendings: 0,
             cur_poll: 0,
@@ -266,6 +275,7 @@ impl AsyncRead for MockReader {
             w.parks.push(snap);
             let cp = w.cur_poll;
             w.park_polls.push(cp);
+            w.poll_park = Some(snap.1);
             if w.releasable > w.released {
                 // the peer has reacted to the server's output meanwhile: the data arrives after
                 // this one not-ready result
@@ -331,6 +341,7 @@ impl MockWriter {
         match step {
             WStep::Pending => {
                 w.saw_write_pending = true;
+                w.poll_park = None; // the task now waits for the writer
                 cx.waker().wake_by_ref();
                 Poll::Pending
             },
@@ -366,6 +377,22 @@ impl MockWriter {
 /// Upper bound of the mock transport's byte log (see `do_write`).
 pub const LOG_CAP: usize = 48 << 20;
 
+impl World {
+    /// To be called by executor loops around every poll of the task that owns the reader.
+    pub fn begin_poll(&mut self) {
+        self.poll_park = None;
+    }
+    /// Returns true if the poll left the task suspended waiting for input.
+    pub fn end_poll(&mut self, pending: bool) -> bool {
+        if let (true, Some(read_pos)) = (pending, self.poll_park.take()) {
+            let l = self.log.len();
+            self.suspensions.push((l, read_pos));
+            return true;
+        }
+        false
+    }
+}
+
 impl AsyncWrite for MockWriter {
     fn poll_write(self: Pin<&mut Self>, cx: &mut Context<'_>, buf: &[u8]) -> Poll<io::Result<usize>> {
         self.do_write(cx, &[buf])
@@ -390,6 +417,7 @@ impl AsyncWrite for MockWriter {
         if !w.flush_script.is_empty() && w.flush_script[call % w.flush_script.len()] {
             w.flush_pendings += 1;
             w.transport_events += 1;
+            w.poll_park = None;
             cx.waker().wake_by_ref();
             return Poll::Pending;
         }
